@@ -114,47 +114,27 @@ Lemma capture_witness :
 Proof. vm_compute. split; reflexivity. Qed.
 
 (* ---- renaming ANOTHER sheet: the stored formula of a name it does not mention ------------------ *)
-Lemma token_eqb_eq a b : token_eqb a b = true -> a = b.
-Proof.
-  destruct a, b; cbn [token_eqb]; try discriminate; try reflexivity; intro H;
-    try (apply text_eqb_eq in H; congruence).
-  - apply Bool.eqb_prop in H. congruence.
-  - apply Z.eqb_eq in H. congruence.
-  - destruct op, op0; try discriminate; reflexivity.
-  - destruct op, op0; try discriminate; reflexivity.
-  - destruct op, op0; try discriminate; reflexivity.
-  - apply andb_true_iff in H as [H1 H2]. f_equal.
-    + destruct sheet, sheet0; cbn [opt_text_eqb] in H1; try discriminate; try reflexivity. apply text_eqb_eq in H1. congruence.
-    + unfold pref_eqb in H2. repeat (apply andb_true_iff in H2 as [H2 ?]).
-      destruct p, p0; cbn in *. apply Z.eqb_eq in H2. apply Z.eqb_eq in H1 || idtac.
-      repeat match goal with H : Bool.eqb _ _ = true |- _ => apply Bool.eqb_prop in H end.
-      repeat match goal with H : (_ =? _) = true |- _ => apply Z.eqb_eq in H end. congruence.
-  - apply andb_true_iff in H as [H H3]. apply andb_true_iff in H as [H1 H2]. f_equal.
-    + destruct sheet, sheet0; cbn [opt_text_eqb] in H1; try discriminate; try reflexivity. apply text_eqb_eq in H1. congruence.
-    + unfold pref_eqb in H2. repeat (apply andb_true_iff in H2 as [H2 ?]). destruct l, l0; cbn in *.
-      repeat match goal with H : Bool.eqb _ _ = true |- _ => apply Bool.eqb_prop in H end.
-      repeat match goal with H : (_ =? _) = true |- _ => apply Z.eqb_eq in H end. congruence.
-    + unfold pref_eqb in H3. repeat (apply andb_true_iff in H3 as [H3 ?]). destruct r, r0; cbn in *.
-      repeat match goal with H : Bool.eqb _ _ = true |- _ => apply Bool.eqb_prop in H end.
-      repeat match goal with H : (_ =? _) = true |- _ => apply Z.eqb_eq in H end. congruence.
-Qed.
-Lemma tokens_eqb_eq a : forall b, tokens_eqb a b = true -> a = b.
-Proof.
-  induction a as [|x a IH]; intros [|y b]; cbn [tokens_eqb]; try discriminate; [reflexivity|].
-  intro H. apply andb_true_iff in H as [H1 H2]. rewrite (token_eqb_eq _ _ H1), (IH _ H2). reflexivity.
-Qed.
-
-(* [stored] is the English text of a tree [e] (what new_defined_name stored); the active
-   configuration spells [e] the same way ([lang_neutral]); [e] is a tree the active parser returns,
-   inside the proved part of C09; the renamed sheet does not occur in it ([rename_sheet e = e]).
-   Then rename_sheet_by_index writes back exactly the text that was stored. *)
-Theorem other_sheet_rename_keeps_formula m_en m nm_en nm env rename_sheet e :
-  lang_neutral m_en m nm_en nm e = true ->
+(* [stored] is the text of a tree [e] in the configuration the loop parses and prints in (English
+   since 9f60d5e); [e] is a tree that parser returns, inside the proved part of C09; the renamed
+   sheet does not occur in it ([rename_sheet e = e]).  Then rename_sheet_by_index writes back
+   exactly the text that was stored. *)
+Theorem other_sheet_rename_keeps_formula m nm env rename_sheet e :
   image m nm env e = true -> no_bad (pm_xlsx m) e = true -> lower_stable nm e = true ->
   rename_sheet e = e ->
-  name_formula_after_rename m nm env rename_sheet (print m_en nm_en e) = print m_en nm_en e.
+  name_formula_after_rename m nm env rename_sheet (print m nm e) = print m nm e.
 Proof.
-  intros Hn Hi Hb Hl Hr. unfold lang_neutral in Hn. apply tokens_eqb_eq in Hn.
-  unfold name_formula_after_rename. rewrite <- Hn.
+  intros Hi Hb Hl Hr. unfold name_formula_after_rename.
   rewrite (roundtrip_parse m nm env e Hi Hb Hl), Hr. reflexivity.
+Qed.
+
+(* ---- renaming a NAME: every stored formula is re-read, renamed and re-printed ---------------------
+   In the English / decimal-point configuration the new stored text is the stored-form print of
+   the renamed tree. *)
+Theorem name_rename_in_formula nm env lower name scope new_name e :
+  image (m_rc_of true) nm env e = true -> no_bad false e = true -> lower_stable nm e = true ->
+  formula_after_name_rename true nm nm env lower name scope new_name (print (m_rc_of true) nm e)
+  = print (m_rc_of true) nm (rename lower name scope new_name e).
+Proof.
+  intros Hi Hb Hl. unfold formula_after_name_rename.
+  rewrite (roundtrip_parse (m_rc_of true) nm env e Hi Hb Hl). reflexivity.
 Qed.
